@@ -4,7 +4,8 @@
    edges from definitions/constants that are nodes of the module); export h is the model of
    Hugr.to_model() (link names = component representatives, symbols = defining node). *)
 From Coq Require Import ZArith List Bool.
-From HV Require Import model.Export spec.ExportS spec.ModelAttrsS gen.ModelAttrs proofs.ExportP proofs.ModelAttrsP.
+From HV Require Import model.Export spec.ExportS spec.ModelAttrsS gen.ModelAttrs proofs.ExportP proofs.ModelAttrsP
+  proofs.ExportOrderP.
 
 (* the union-find labelling names two ports alike exactly when the links join them *)
 Theorem C12_components : forall ls p q, rep ls p = rep ls q <-> conn ls p q.
@@ -54,6 +55,52 @@ Theorem C12_order_hints_source_keyed_partial :
   forall h, valid_b h = true -> order_hints_source_keyed h (export h) = true.
 Proof. exact export_order_hints_source_keyed. Qed.
 Print Assumptions C12_order_hints_source_keyed_partial.
+
+(* clause 6 in full: in the export of a valid module every state-order link between two exported
+   siblings of a dataflow region has a hint on that region whose keys are on the two nodes, the keys
+   of a region are pairwise distinct, and every hint is such an edge.  Guard: valid_b, valid_order_b
+   (order successors are siblings or the region's Output) and order_ports_b (an offset -1 port is linked
+   to an offset -1 port). *)
+Theorem C12_order_hints_complete_and_keyed :
+  forall h, valid_b h = true -> valid_order_b h = true -> order_ports_b h = true ->
+            order_hints_complete_and_keyed h (export h) = true.
+Proof. exact export_order_hints_complete_and_keyed. Qed.
+Print Assumptions C12_order_hints_complete_and_keyed.
+
+(* order_ports_b cannot be dropped: a link from an order port to a value port makes the exporter
+   emit a hint that is no state-order edge *)
+Theorem C12_order_hints_guard_needed :
+  exists h, valid_b h = true /\ valid_order_b h = true /\ export_err h = false /\
+            order_hints_complete_and_keyed h (export h) = false.
+Proof. exact hints_need_order_ports. Qed.
+Print Assumptions C12_order_hints_guard_needed.
+
+(* totality: on a valid module the export raises exactly when some CFG of the model has no basic block
+   (export_region_cfg: "CFG ... has no entry block"); every other raise site of export.py is excluded
+   by valid_b *)
+Theorem C12_export_total_iff :
+  forall h, valid_b h = true -> (export_err h = false <-> cfg_entries_b h = true).
+Proof. exact export_total_iff. Qed.
+Print Assumptions C12_export_total_iff.
+
+Theorem C12_export_total :
+  forall h, valid_b h = true -> cfg_entries_b h = true -> to_model h = Some (export h).
+Proof. exact export_no_error. Qed.
+Print Assumptions C12_export_total.
+
+(* valid_b (with valid_order_b, order_ports_b, stars_b) alone does not give totality *)
+Theorem C12_valid_alone_not_total :
+  exists h, valid_b h = true /\ valid_order_b h = true /\ order_ports_b h = true /\ stars_b h = true /\
+            export_err h = true.
+Proof. exact valid_not_total. Qed.
+Print Assumptions C12_valid_alone_not_total.
+
+(* the monitor's decision procedure for link names is also complete: it cannot raise a false alarm *)
+Theorem C12_link_names_monitor_complete :
+  forall (L Sy : Type) (leqb : L -> L -> bool) h (m : eregion L Sy),
+    link_names_iff_connected leqb h m -> link_names_iff_connected_b leqb h m = true.
+Proof. exact @link_names_b_complete. Qed.
+Print Assumptions C12_link_names_monitor_complete.
 
 Theorem C12_metadata_carried :
   forall h, valid_b h = true -> metadata_carried h (export h) = true.
